@@ -37,6 +37,19 @@ NOTES = """Interpretation choices (read generously, see BUILDING.md rule 1):
 * the XML spelling of workbook.xml, its relationships and of the <c> attributes (r / s / t in any order, single
   quotes, <c ...></c>, another prefix for the relationships namespace, an ignorable foreign id attribute on <sheet>,
   comments between entries, no XML declaration / a byte order mark) never matters; some layouts use it.
+* ENTRY POINTS (audit). Views of a sheet's cells, all driven:
+    xlsx.Reader: Sheet(i), SheetByName, SheetNames, SheetCount, PageCount, Text, TextWithOptions (Sheets, IncludeHeaders,
+      Delimiter, ExcludeHeaders, ExcludeFooters), Markdown, MarkdownWithOptions (Sheets), MarkdownWithRAGOptions (metadata,
+      TOC), Document, Tables + ParsedTable.ToText / ToMarkdown; Sheet.Rows / Cell / CellByRef / RowCount / ColCount /
+      MaxRow / MaxCol / MergedRegions; Cell.Value / IsEmpty / IsMerged / IsMergeRoot / MergeRows / MergeCols.
+    tabula.Extractor over an .xlsx file: Text, ToMarkdown, ToMarkdownWithOptions, Document, Chunks, ChunksWithConfig,
+      PageCount, ExcludeHeaders/Footers().Text, Pages(k) / PageRange(a,b) selections.
+  Pages / PageRange: the statement says nothing about selections (that is C10): a selection must show the selected sheet
+  alone or - where the format does not take selections, as on the current tree - the whole workbook in order; anything
+  else is a violation. Extra views rotate over the cases: one per case in the quick tier, two per case in the thorough tier.
+  NOT observable for a workbook: Fragments, Lines, Paragraphs, ReadingOrder, Analyze, Headings, Lists, Blocks, Elements,
+  IsCharacterLevel, IsMultiColumn (PDF only: they return an error), Reader.Metadata / Cell.RawValue / Formula /
+  StyleIndex / Type (no displayed value), tabula.FromReader (PDF readers only).
 * ODT/DOCX/PPTX table spans are not part of C17's statement (spreadsheets only) and are not checked here.
 * generated files are valid ECMA-376: <row> without r (optional attribute) but cells with full
   references; rows and cells in any order (the schema does not order them); inline strings with
